@@ -6,5 +6,67 @@ verus! {
 //@@ INCLUDE lib/div_dword_bits_64.rs
 //@@ INCLUDE lib/basering_bits.rs
 //@@ INCLUDE lib/basering_gcd_lemmas.rs
+//@@ INCLUDE lib/basering_gcd_traits.rs
+//@@ FN base/ring_gcd/unchecked_gcd_prim.rs variant=u64 msubst=U:u64,I:i64
+//@@ FN base/ring_gcd/unchecked_gcd_ext_prim.rs variant=u64 msubst=U:u64,I:i64
+impl UncheckedGcd for u64 {
+    type Output = u64;
+    open spec fn ugcd_req(self, rhs: u64) -> bool { (self as int) % 2 == 1 && (rhs as int) % 2 == 1 }
+    open spec fn ugcd_post(self, rhs: u64, r: u64) -> bool { r as int == br_gcd(self as nat, rhs as nat) && r >= 1 }
+    fn unchecked_gcd(self, rhs: u64) -> (r: u64) { unchecked_gcd_u64(self, rhs) }
+}
+impl UncheckedExtendedGcd for u64 {
+    type OutputGcd = u64;
+    type OutputCoeff = i64;
+    open spec fn ugcd_ext_req(self, rhs: u64) -> bool { self >= rhs && rhs >= 1 }
+    open spec fn ugcd_ext_post(self, rhs: u64, r: (u64, i64, i64)) -> bool { br_ext_post(self as int, rhs as int, r.0 as int, r.1 as int, r.2 as int) }
+    fn unchecked_gcd_ext(self, rhs: u64) -> (r: (u64, i64, i64)) { unchecked_gcd_ext_u64(self, rhs) }
+}
+//@@ FN base/ring_gcd/unchecked_gcd_dbl.rs variant=u128 msubst=U:u128,I:i128,HU:u64,HI:i64
+//@@ FN base/ring_gcd/unchecked_gcd_ext_dbl.rs variant=u128 msubst=U:u128,I:i128,HU:u64,HI:i64
+impl UncheckedGcd for u128 {
+    type Output = u128;
+    open spec fn ugcd_req(self, rhs: u128) -> bool { (self as int) % 2 == 1 && (rhs as int) % 2 == 1 }
+    open spec fn ugcd_post(self, rhs: u128, r: u128) -> bool { r as int == br_gcd(self as nat, rhs as nat) && r >= 1 }
+    fn unchecked_gcd(self, rhs: u128) -> (r: u128) { unchecked_gcd_u128(self, rhs) }
+}
+impl UncheckedExtendedGcd for u128 {
+    type OutputGcd = u128;
+    type OutputCoeff = i128;
+    open spec fn ugcd_ext_req(self, rhs: u128) -> bool { self >= rhs && rhs >= 1 }
+    open spec fn ugcd_ext_post(self, rhs: u128, r: (u128, i128, i128)) -> bool { br_ext_post(self as int, rhs as int, r.0 as int, r.1 as int, r.2 as int) }
+    fn unchecked_gcd_ext(self, rhs: u128) -> (r: (u128, i128, i128)) { unchecked_gcd_ext_u128(self, rhs) }
+}
+//@@ FN base/ring_gcd/gcd.rs variant=u64 msubst=U:u64,I:i64
+//@@ FN base/ring_gcd/gcd_ext.rs variant=u64 msubst=U:u64,I:i64
+pub mod inst_u128 {      // (the fn-local `const GCD_BIT_DIFF_THRESHOLD` is hoisted in front of each instance by rule D19: one module per instance)
+use super::*;
+//@@ FN base/ring_gcd/gcd.rs variant=u128 msubst=U:u128,I:i128
+//@@ FN base/ring_gcd/gcd_ext.rs variant=u128 msubst=U:u128,I:i128
+}
+// ---- 32-bit instances: u32 (single width), and u64 as TWO u32 halves (`impl_unchecked_gcd_ops_prim!(u64 | i64 => u32 | i32; ..)`,
+// the arm selected on targets with 32-bit pointers; on 64-bit targets u64 is the single-width instance above)
+pub mod inst_u32 {
+use super::*;
+//@@ FN base/ring_gcd/unchecked_gcd_prim.rs variant=u32 msubst=U:u32,I:i32
+//@@ FN base/ring_gcd/unchecked_gcd_ext_prim.rs variant=u32 msubst=U:u32,I:i32
+impl UncheckedGcd for u32 {
+    type Output = u32;
+    open spec fn ugcd_req(self, rhs: u32) -> bool { (self as int) % 2 == 1 && (rhs as int) % 2 == 1 }
+    open spec fn ugcd_post(self, rhs: u32, r: u32) -> bool { r as int == br_gcd(self as nat, rhs as nat) && r >= 1 }
+    fn unchecked_gcd(self, rhs: u32) -> (r: u32) { unchecked_gcd_u32(self, rhs) }
+}
+impl UncheckedExtendedGcd for u32 {
+    type OutputGcd = u32;
+    type OutputCoeff = i32;
+    open spec fn ugcd_ext_req(self, rhs: u32) -> bool { self >= rhs && rhs >= 1 }
+    open spec fn ugcd_ext_post(self, rhs: u32, r: (u32, i32, i32)) -> bool { br_ext_post(self as int, rhs as int, r.0 as int, r.1 as int, r.2 as int) }
+    fn unchecked_gcd_ext(self, rhs: u32) -> (r: (u32, i32, i32)) { unchecked_gcd_ext_u32(self, rhs) }
+}
+//@@ FN base/ring_gcd/gcd.rs variant=u32 msubst=U:u32,I:i32
+//@@ FN base/ring_gcd/gcd_ext.rs variant=u32 msubst=U:u32,I:i32
+//@@ FN base/ring_gcd/unchecked_gcd_dbl.rs variant=u64d msubst=U:u64,I:i64,HU:u32,HI:i32
+//@@ FN base/ring_gcd/unchecked_gcd_ext_dbl.rs variant=u64d msubst=U:u64,I:i64,HU:u32,HI:i32
+}
 } // verus!
 fn main() {}
